@@ -12,7 +12,11 @@
 //         sysconf(_SC_NPROCESSORS_ONLN) faked to 1 (single-processor machine)
 //   wq  <seed> <perturb> <queueSize> <numThreads> <prog>     prog over {a = addTask(next id), f = flush()}
 // stdout per case:  CASE k ... / R <tid> <tag> <numbers...> / PRED ... / TAB ... / SQ ... / NPROC n / END
-#include "SimTKcommon.h"
+#include "SimTKcommon/internal/common.h"
+#include "SimTKcommon/internal/Array.h"
+#include "SimTKcommon/internal/ParallelExecutor.h"
+#include "SimTKcommon/internal/Parallel2DExecutor.h"
+#include "SimTKcommon/internal/ParallelWorkQueue.h"
 #include "SimTKcommon/internal/VerifTrace.h"
 #include <atomic>
 #include <chrono>
